@@ -5,7 +5,7 @@
 //   popload  <arch> <type#> <mode> <pol> <prior> <doc>   -> OK <value> | EXC:<code>
 //   validate <arch> <class#> <max> <pol> <doc>           -> OK <value> | VAL <path>:<msg>,..;.. <state|-> | EXC:<code>
 //
-// arch: json | mp | csv | xml    mode: - | c | o | u (MapLoadMode)    pol: two letters (mismatch, overflow; S = Skip, T = ThrowError)
+// arch: json | mp | csv | xml, and jsons | mps | xmls = the same document through std::istream (implementation only)    mode: - | c | o | u (MapLoadMode)    pol: two letters (mismatch, overflow; S = Skip, T = ThrowError)
 // values / documents, one token:  n | t | f | i<decimal> | s<hex> | [x,..] | {k:x,..}  keys i<decimal> | s<hex>
 // The catalogues (type#, class#) are the same lists as type_catalogue / class_catalogue in coq/ArchCodec.v.
 #include "common.h"
@@ -226,10 +226,10 @@ static void to_xml(const Tree& t, const std::string* member, std::string& out) {
 }
 static std::string encode(const std::string& arch, const Tree& doc) {
 	std::string out;
-	if (arch == "json") to_json(doc, out);
+	if (arch == "json" || arch == "jsons") to_json(doc, out);
 	else if (arch == "mp" || arch == "mps") to_msgpack(doc, out);
 	else if (arch == "csv") out = to_csv(doc);
-	else if (arch == "xml") { out = "<?xml version=\"1.0\"?>"; to_xml(doc, nullptr, out); }
+	else if (arch == "xml" || arch == "xmls") { out = "<?xml version=\"1.0\"?>"; to_xml(doc, nullptr, out); }
 	else throw Syntax{"arch"};
 	return out;
 }
@@ -445,14 +445,18 @@ static SerializationOptions make_options(const std::string& pol, unsigned max) {
 template <bool Csv, bool Xml, class T>
 static void load_with(const std::string& arch, T& obj, const std::string& input, const SerializationOptions& o) {
 	if (arch == "json") LoadObject<JsonArchive>(obj, input, o);
+	else if (arch == "jsons") { std::istringstream is(input); LoadObject<JsonArchive>(obj, is, o); }       // the same through std::istream
 	else if (arch == "mp") LoadObject<MsgPackArchive>(obj, input, o);
 	else if (arch == "mps") { std::istringstream is(input); LoadObject<MsgPackArchive>(obj, is, o); }   // the same through the stream reader
 	else if (arch == "csv") {
 		if constexpr (Csv) LoadObject<CsvArchive>(obj, input, o);
 		else throw Syntax{"type not loadable from csv"};
 	}
-	else if (arch == "xml") {
-		if constexpr (Xml) LoadObject<XmlArchive>(obj, input, o);
+	else if (arch == "xml" || arch == "xmls") {
+		if constexpr (Xml) {
+			if (arch == "xml") LoadObject<XmlArchive>(obj, input, o);
+			else { std::istringstream is(input); LoadObject<XmlArchive>(obj, is, o); }                 // the same through std::istream
+		}
 		else throw Syntax{"type not loadable from xml"};
 	}
 	else throw Syntax{"arch"};
